@@ -605,6 +605,43 @@ func runCheck(prop, tier, repo, verif string, verbose, noReplay bool, evOut stri
 		}
 	}
 
+	// thorough tier: the assumed contracts of library functions this property's proofs use are compared with
+	// the real libraries over bounded input sets (validation of assumptions: bounded, never counted as proved)
+	if tier == "thorough" {
+		used := map[string]bool{}
+		for _, vc := range vcs {
+			for e := range vc.usedExterns {
+				used[e] = true
+			}
+		}
+		for _, l := range runExterns(repo, verif, scratch) {
+			ok := strings.HasPrefix(l, "EXTERN-OK ")
+			rest := strings.TrimPrefix(strings.TrimPrefix(l, "EXTERN-OK "), "EXTERN-VIOLATION ")
+			i := strings.Index(rest, ": ")
+			if i < 0 {
+				continue
+			}
+			relevant := false
+			for _, n := range strings.Split(rest[:i], ",") {
+				if used[strings.TrimSpace(n)] {
+					relevant = true
+				}
+			}
+			if !relevant {
+				continue
+			}
+			if ok {
+				boundedNotes = append(boundedNotes, "ASSUMPTION VALIDATION (bounded, not a proof): assumed contracts of "+rest[:i]+" agree with the real library on: "+rest[i+2:])
+				continue
+			}
+			violations++
+			exit = 1
+			rp := writeReplayFile(verif, prop, "extern#"+rest[:i], map[string]any{"obligation": "extern#" + rest[:i], "property": prop,
+				"replay": "the real library function disagrees with its assumed contract in /verif/specs/externs.vc: proofs that use it are void", "failing_input": rest[i+2:]})
+			fmt.Printf("VIOLATION property=%s replay=%s obligation=extern#%s an assumed library contract is refuted by the library: %s\n", prop, rp, rest[:i], rest[i+2:])
+		}
+	}
+
 	// evidence
 	var funcs []string
 	assumed := map[string]bool{}
@@ -880,6 +917,36 @@ type boundedResult struct {
 	note       string
 	violations []string
 	output     string
+}
+
+// runExterns runs TestGovcExterns of /verif/replay/log_externs_test.go against the working tree (injected with
+// -overlay) and returns its EXTERN-OK / EXTERN-VIOLATION lines.
+func runExterns(repo, verif, scratch string) []string {
+	src := filepath.Join(verif, "replay", "log_externs_test.go")
+	if _, err := os.Stat(src); err != nil {
+		return nil
+	}
+	ov := map[string]any{"Replace": map[string]string{filepath.Join(repo, "zz_govc_externs_test.go"): src}}
+	ovFile := filepath.Join(scratch, "overlay_externs.json")
+	writeJSON(ovFile, ov)
+	cmd := exec.Command("go", "test", "-overlay", ovFile, "-vet=off", "-count=1", "-timeout", "600s", "-v", "-run", "^TestGovcExterns$", ".")
+	cmd.Dir = repo
+	env := []string{}
+	for _, e := range os.Environ() {
+		if strings.HasPrefix(e, "GOSUMDB=") || strings.HasPrefix(e, "GOTOOLCHAIN=") || strings.HasPrefix(e, "GOFLAGS=") {
+			continue
+		}
+		env = append(env, e)
+	}
+	cmd.Env = append(env, "GOFLAGS=-mod=mod", "GOPROXY=off", "GOVC_EXTERNS=1")
+	out, _ := cmd.CombinedOutput()
+	var lines []string
+	for _, l := range strings.Split(string(out), "\n") {
+		if strings.HasPrefix(l, "EXTERN-OK ") || strings.HasPrefix(l, "EXTERN-VIOLATION ") {
+			lines = append(lines, l)
+		}
+	}
+	return lines
 }
 
 // runBounded runs TestGovcBounded_<prop> of /verif/replay/log_bounded_test.go (if there is one) against
